@@ -426,12 +426,21 @@ func c13prop(ev *evid.Rec, forceWrap bool) func(rt *rapid.T) {
 					s.rt = rt
 					c := pick("who", func(c *pclient) bool { return true })
 					a := c.access
-					if a.Has(hlref.PrivDisconUser) {
-						a.Clear(hlref.PrivDisconUser)
-					} else {
-						a.Set(hlref.PrivDisconUser)
+					// the edit toggles the privilege the admin flag of the user list is derived from, toggles another one, or
+					// saves the account with the privileges it has (an edit of the name or password only)
+					mode := rapid.SampledFrom([]string{"discon", "discon", "same", "other"}).Draw(rt, "edit")
+					bit := hlref.PrivDisconUser
+					if mode == "other" {
+						bit = hlref.PrivNewsPostArt
 					}
-					rec("setuser %s discon=%v", c.login, a.Has(hlref.PrivDisconUser))
+					if mode != "same" {
+						if a.Has(bit) {
+							a.Clear(bit)
+						} else {
+							a.Set(bit)
+						}
+					}
+					rec("setuser %s %s discon=%v", c.login, mode, a.Has(hlref.PrivDisconUser))
 					r := adm.conn.Request(hlref.TranSetUser, fld(hlref.FUserLogin, hlref.Obfuscate([]byte(c.login))), sfld(hlref.FUserName, fmt.Sprintf("Acct%d", c.idx)), fld(hlref.FUserAccess, a[:]), fld(hlref.FUserPassword, []byte{0}))
 					if !okReply(r) {
 						s.fail("set-user refused")
